@@ -876,6 +876,13 @@ func (p *parent) runTxCase(j job) {
 	var res evid.ChildResult
 	for attempt := 0; attempt < 3; attempt++ {
 		res = evid.Child(args, nil, p.childTimeout())
+		// A child that was killed from outside (SIGKILL without any fatal line of the Go
+		// runtime: the kernel's out-of-memory killer on an overloaded machine) says nothing
+		// about the input; the case is executed again.
+		if killedFromOutside(res) {
+			p.r.Count("children_killed_from_outside_and_rerun", 1)
+			continue
+		}
 		if !res.TimedOut {
 			break
 		}
